@@ -597,6 +597,15 @@ func (t *fnTrans) resolveMod(item string, env *Env) []modTarget {
 		t.errorf("modifies %q: not a map type", item)
 		return []modTarget{{all: true}}
 	}
+	if strings.HasPrefix(item, "chanstore(") && strings.HasSuffix(item, ")") {
+		// ghost counters of every channel with that element type
+		if ty := t.eng.resolveType("chan "+item[len("chanstore("):len(item)-1], env.pkg); ty != nil {
+			a, b, c := t.chanVars(ty)
+			return []modTarget{{name: a.Name}, {name: b.Name}, {name: c.Name}}
+		}
+		t.errorf("modifies %q: unknown element type", item)
+		return []modTarget{{all: true}}
+	}
 	for _, pre := range []string{"elems(", "deref("} {
 		if strings.HasPrefix(item, pre) && strings.HasSuffix(item, ")") {
 			inner := strings.TrimSpace(item[len(pre) : len(item)-1])
@@ -952,6 +961,23 @@ func (t *fnTrans) applyContract(fc *FuncContract, key string, sig *types.Signatu
 		na := t.fresh("alloc_c", "Int")
 		t.assume(fmt.Sprintf("(>= %s %s)", na, t.get(t.cur, "alloc")))
 		t.set("alloc", na)
+		if !fc.NoChan && !fc.Extern {
+			// a repository function may send / receive: channel counters are unknown afterwards
+			// unless its contract says `nochan` (or lists chanstore(T) and constrains them in ensures)
+			listed := map[string]bool{}
+			for _, item := range fc.Modifies {
+				if strings.HasPrefix(strings.TrimSpace(item), "chanstore(") {
+					for _, mt := range t.resolveMod(item, env.with(pre)) {
+						listed[mt.name] = true
+					}
+				}
+			}
+			for _, name := range sortedKeys(t.vars) {
+				if sv := t.vars[name]; sv.Kind == "chan" && !listed[name] {
+					t.set(name, t.fresh(name+"_ch", sv.Sort))
+				}
+			}
+		}
 	}
 	res := t.resultVal(resTy, "ret")
 	post := &Env{t: t, st: t.cur, old: pre, vars: map[string]bound{}, pkg: pkg, snapPrefix: snapPrefix}
